@@ -27,7 +27,7 @@ OptionLists ==
   { <<>>,
     << Opt(3, [Nsid |-> <<1, 2>>]) >>,
     << Opt(11, [Timeout |-> <<>>]), Opt(11, [Timeout |-> <<600>>]) >>,
-    << Opt(8, [Family |-> 1, SourceNetmask |-> 9, SourceScope |-> 0, Address |-> <<10, 128, 0, 0>>]),
+    << Opt(8, [Family |-> 1, SourceNetmask |-> 9, SourceScope |-> 0, Address |-> <<10, 255, 1, 1>>]),       \* host bits set: masked on the wire
        Opt(65001, [Data |-> <<255>>]) >>,
     << Opt(2, [Lease |-> <<0, 0, 0, 1>>, KeyLease |-> <<0, 0, 0, 0>>]), Opt(9, [Expire |-> <<>>]),
        Opt(9, [Expire |-> <<0, 0, 0, 0>>]), Opt(18, [AgentDomain |-> << <<97>> >>]) >> }
